@@ -125,3 +125,27 @@ Theorem C01_source_type_names_are_keywords :
   map bs yanny_int_types = [KW_SHORT; KW_INT; KW_LONG] /\ map bs yanny_float_types = [KW_FLOAT; KW_DOUBLE].
 Proof. exact type_names_are_keywords. Qed.
 Print Assumptions C01_source_type_names_are_keywords.
+
+(* ---- the float oracle as explicit hypotheses (C01/Floats.v, Section FloatOracle) ----
+   show_f = str(np.float32 / np.float64), parse_f = np.float32(float(.)) / float(.).  The two facts the harness validates
+   on every run are premises here, so every statement about float VALUES shows what it assumes of numpy. *)
+From PV Require Import C01.Floats.
+
+(* oracle hypothesis 1 (the printed text is a bare token) is exactly what puts a float cell inside the domain doc_ok *)
+Theorem C01_float_cells_in_domain : forall (F : Type) (show_f : btype -> F -> bytes),
+  (forall t x, bare_ok (show_f t x) = true) ->
+  forall es c inarr x, c_type c = TFloat \/ c_type c = TDouble ->
+  sval_ok es c inarr (txt_sval F show_f (c_type c) (VFlt F x)) = true.
+Proof. exact float_cell_in_domain. Qed.
+Print Assumptions C01_float_cells_in_domain.
+
+(* oracle hypothesis 2 (reading the printed text gives the value back): a document of integer, string and floating-point
+   VALUES, written with show_f and read back with parse_f, returns every table with its original values *)
+Theorem C01_file_roundtrip_floats : forall (F : Type) (show_f : btype -> F -> bytes) (parse_f : btype -> bytes -> option F),
+  (forall t x, parse_f t (show_f t x) = Some x) ->
+  forall d : vdoc F, doc_ok (txt_doc F show_f d) = true -> forallb (vtable_typed F) (vd_tables F d) = true ->
+  exists b p, render_checked (txt_doc F show_f d) = Some b /\ parse b = Some p /\ parse_binary b = Some p /\
+              pd_pairs p = vd_pairs F d /\
+              omap (val_table F parse_f) (pd_tables p) = Some (map (vt_rows F) (vd_tables F d)).
+Proof. exact file_roundtrip_floats. Qed.
+Print Assumptions C01_file_roundtrip_floats.
